@@ -53,6 +53,9 @@ def shared_boundary(mp):
     return None
 
 
+CERT_COUNTS = {'evaluated': 0, 'accepted': 0}
+
+
 def assess(cases, outs):
     """fills o.status for the structure property"""
     items = []
@@ -67,12 +70,24 @@ def assess(cases, outs):
         scenes[c.cid] = (regs, clauses)
         items.append((c.cid, regs, laws.And(*clauses.values()), c.prec))
     ex = oracle.exact_batch(items)
+    # the verified certificate (coq/theories/Cert02Edges.v) on the implementation's own result: no two result edges share more
+    # than a point
+    from . import engine
+    okc = [c for c in cases if outs[c.cid].status != 'fail-outcome']
+    nl = ['noshare %s %d %s' % (c.cid, c.prec, ' '.join([str(len(outs[c.cid].impl[1]))] + [fmt.enc_polygon(pl, c.prec) for pl in outs[c.cid].impl[1]]))
+          for c in okc]
+    nres = engine.run_lines(engine.MODEL, nl, timeout=1800)
+    noshare = {c.cid: (engine.payload(a).strip() if a.startswith('noshare') else '?') for c, a in zip(okc, nres)}
+    CERT_COUNTS['evaluated'] += len(nl)
+    CERT_COUNTS['accepted'] += sum(1 for v in noshare.values() if v == '1')
     for c in cases:
         o = outs[c.cid]
         if o.status == 'fail-outcome':
             continue
         regs, clauses = scenes[c.cid]
         sb = shared_boundary(o.impl[1])
+        if sb is None and noshare.get(c.cid) != '1':
+            sb = 'the verified certificate Cert02Edges.no_shared_boundary answers %s' % noshare.get(c.cid)
         if ex.get(c.cid) == 'true' and sb is None:
             o.status = 'exact-pass'
             continue
@@ -122,8 +137,9 @@ def run(rep, tier, seed):
     rep.log('outcomes', cnt)
     c01.fill_coverage(rep, cases, outs, cnt, 'Pass = the verified exact checker accepts, for every point of the plane, the law '
                       '"polygon reading = even-odd reading of all rings, every hole inside its exterior, holes of one polygon '
-                      'pairwise disjoint, polygons pairwise interior-disjoint", and no two result edges overlap (exact, Python).')
-    rep.coverage['trusted_base'] = c01.TRUSTED + ['the shared-boundary test (two result edges overlapping) is exact rational Python code, not verified']
+                      'pairwise disjoint, polygons pairwise interior-disjoint", and no two result edges overlap (verified certificate Cert02Edges.no_shared_boundary, doubled by exact Python).')
+    rep.coverage['no_shared_boundary_certificates'] = dict(CERT_COUNTS)
+    rep.coverage['trusted_base'] = c01.TRUSTED + ['the shared-boundary test (two result edges overlapping) is the Coq-verified certificate Cert02Edges.no_shared_boundary, doubled by exact rational Python code']
 
     def refail(c):
         o = campaign.Outcome(c)
